@@ -18,7 +18,7 @@ def _th(*audits: str) -> list[str]:
 
 # properties whose machinery is finished and reviewed (everything else is listed under not_applicable
 # in MANIFEST.json with the reason "in progress")
-READY = {"C01", "C02", "C06", "C07", "C08", "C09", "C10", "C13", "C14", "C17", "C18", "C19", "C20"}
+READY = {"C01", "C02", "C04", "C05", "C06", "C07", "C08", "C09", "C10", "C11", "C13", "C14", "C16", "C17", "C18", "C19", "C20"}
 
 
 def _reg(pid, modules, audits, families, note, partial="", assumptions=None, pre_build=None):
@@ -53,7 +53,7 @@ _LOOP = {
     "C16": (["Redress.Props.C16"], ["Redress/Audit/C16.lean"]),
 }
 _LOOP_PARTIAL = {
-    "C04": "the traceback conjunct cannot be expressed in the model; it is checked on the implementation by the harness",
+    "C04": "the traceback conjunct cannot be expressed in the model; it is checked on the implementation by the harness (tb_ok). The theorems cover entries with a retry loop; Policy.call without a retry component makes one attempt and re-raises (model Policy.callWithoutRetry), tied by the correspondence only",
     "C02": "wall-clock independence is by construction of the model (it has no wall-clock input); carried by the "
            "correspondence, whose non-monotonic clock shim jumps by hours at every read",
 }
